@@ -11,6 +11,10 @@ CONSTANTS
   CatchUpWriteErrorFatal = TRUE
   SwallowWriteError = FALSE
   AnnounceBeforeWrite = FALSE
+  MaxReads = 0
+  CachedAccessor = FALSE
+  ErrKinds = {"transport", "timeout", "notfound", "cancel"}
+  NotFoundMeansLatest = FALSE
   FinalityAfterNotices = FALSE
 INIT Init
 NEXT Next
